@@ -480,4 +480,11 @@ def rule_l(ctx: Ctx) -> None:
     lazy_path_kept(ctx, 'C19.l')
 
 
-RULES = [rule_a, rule_b, rule_c, rule_d, rule_e, rule_f, rule_g, rule_h, rule_i, rule_j, rule_k, rule_l]
+def rule_m(ctx: Ctx) -> None:
+    """An attribute outside the namespace constraint of the wildcard is a fault of the element that carries it and must produce an error there, also for
+    processContents="skip" (wild.constraint_first body, = C16.f / C03.h)."""
+    from .wild import constraint_first
+    constraint_first(ctx, 'C19.m')
+
+
+RULES = [rule_a, rule_b, rule_c, rule_d, rule_e, rule_f, rule_g, rule_h, rule_i, rule_j, rule_k, rule_l, rule_m]
